@@ -223,21 +223,25 @@ Definition replay_msg (f : frame) : msg := mkMsg (f_ty f) (f_id f) (Some (f_seq 
 Definition mem_z (x : Z) (l : list Z) : bool := existsb (Z.eqb x) l.
 
 (* the loop over the recovered rows and what follows it, as code; gfb / gfe = gap_fill_begin / _end,
-   saved = next_num_out when the request arrived *)
-Fixpoint replay_code (rs : list (Z * frame)) (d : list Z) (gfb gfe saved : Z) : list instr :=
+   saved = next_num_out when the request arrived, e' = EndSeqNo (0 mapped to maxsize).
+   Numbers missing in the journal before a replayed row are gap filled too; the tail gap fill runs up to
+   min(saved, e' + 1). *)
+Fixpoint replay_code (rs : list (Z * frame)) (d : list Z) (gfb gfe saved e' : Z) : list instr :=
   match rs with
   | [] =>
+      let last := Z.min saved (e' + 1) in
       if saved <? gfe then [IRaise EAssert]
-      else (if gfb <? saved then [ISend (gapfill_msg gfb saved)] else [])
+      else (if gfb <? last then [ISend (gapfill_msg gfb last)] else [])
            ++ [IStateHook S_ACTIVE true]
   | (_, f) :: rs' =>
       let n := f_seq f in
-      if is_sess (f_ty f) then replay_code rs' d gfb (n + 1) saved
+      if is_sess (f_ty f) then replay_code rs' d gfb (n + 1) saved e'
       else IHook ::
-           (if mem_z n d then replay_code rs' d gfb (n + 1) saved
-            else (if gfb <? gfe then [ISend (gapfill_msg gfb gfe)] else [])
+           (if mem_z n d then replay_code rs' d gfb (n + 1) saved e'
+            else let gfe' := if gfb <? n then n else gfe in
+                 (if gfb <? gfe' then [ISend (gapfill_msg gfb gfe')] else [])
                  ++ (if f_pd f then [IRaise EDupTag] else [ISend (replay_msg f)])
-                 ++ replay_code rs' d (n + 1) gfe saved)
+                 ++ replay_code rs' d (n + 1) gfe' saved e')
   end.
 
 Definition recover (b e : Z) (l : list (Z * frame)) : list (Z * frame) :=
@@ -247,7 +251,7 @@ Definition recover (b e : Z) (l : list (Z * frame)) : list (Z * frame) :=
 Definition resend_code (b0 e : Z) (d : list Z) (w : world) : list instr :=
   let b := Z.max b0 1 in
   let e' := if e =? 0 then MAXSIZE else e in
-  replay_code (recover b e' (rows w)) d b b (nout w).
+  replay_code (recover b e' (rows w)) d b b (nout w) e'.
 
 Definition finish (abort : bool) (out : list outcome) (w : world) : res := (mkT [] WDone out None abort, w).
 
